@@ -13,7 +13,12 @@ Server  : `samply/src/main.rs:210-238` (every map value goes to `add_known_libra
           `wholesym/src/helper.rs:311-335` (`add_known_lib`), `:444-470` (`fill_in_library_info_details`),
           `:476-692` (`get_candidate_paths_for_debug_file`), `:728-800` (`get_candidate_paths_for_binary`),
           `samply-symbols/src/shared.rs:308-337` (`LibraryInfo::absorb`).
-Converter: `samply/src/linux_shared/converter.rs:1308-1570, 1597-1613` (`add_module_to_process` cases 2 and 4).
+Converter: `samply/src/linux_shared/converter.rs:1308-1570, 1572-1613` (`add_module_to_process` cases 2 and 4 with
+          and without a build id in the recording, `code_id_matches`, `library_info_with_object`), `:775-786` (where
+          the recording's build id comes from), `samply-symbols/src/debugid_util.rs:69-100`.
+Lookup  : `samply-symbols/src/lib.rs:330-361` (the first candidate that loads and has the requested debug id).
+Keys    : `library_info.rs:48-54` (writer literals), `profile_json_preparse.rs:32-42` + serde_derive's
+          `RenameRule::CamelCase` (reader).
 
 Text is modelled as lists of byte values (`Str = List Nat`, every element `< 256` for real strings): the
 Rust code indexes strings by bytes (`s.len()`, `s.get(..8)`, `&string[32..]`), and every place where it looks
@@ -490,8 +495,7 @@ def candidatesForBinary (k : KnownLibs) (request : RLib) : List Cand :=
 found by `locate_dsym_fastpath` / Spotlight): `<debug_path>.dbg` for `.so`, the debug file next to the
 binary when `name ≠ debug_name`, `/usr/lib/debug/.build-id/xx/….debug` for an ELF build id, the local
 Breakpad file, then the binary at the recorded `path`. -/
-def candidatesForDebugFile (k : KnownLibs) (request : RLib) : List Cand :=
-  let info := fillIn k request
+def earlierDebugCands (info : RLib) : List Cand :=
   (match info.debugPath, info.debugName with
     | some dp, some _ =>
       (if endsWith dp [46, 115, 111] then [Cand.localFile (dp ++ [46, 100, 98, 103])] else [])
@@ -511,8 +515,16 @@ def candidatesForDebugFile (k : KnownLibs) (request : RLib) : List Cand :=
   ++ (match info.debugName, info.debugId with
     | some dn, some d => [Cand.breakpad dn d.toBreakpad]
     | _, _ => [])
+
+/-- the whole list for an already completed library info: the candidates tried *before* the binary itself
+(`earlierDebugCands`), the binary at the recorded `path`, the vdso special case -/
+def debugCandsOf (info : RLib) : List Cand :=
+  earlierDebugCands info
   ++ (match info.path with | some p => [Cand.localFile p] | none => [])
   ++ (if info.name == some [91, 118, 100, 115, 111, 93] then [Cand.vdso] else [])
+
+def candidatesForDebugFile (k : KnownLibs) (request : RLib) : List Cand :=
+  debugCandsOf (fillIn k request)
 
 /-- the request the symbolication API makes for a `memoryMap` entry `[debugName, breakpadId]`
 (samply-api symbolicate: `LibraryInfo { debug_name, debug_id, ..Default }`) -/
@@ -536,5 +548,141 @@ def basename (p : Str) : Str := (p.reverse.takeWhile (· != 47)).reverse
 def convertLib (path : Str) (debugId : DebugId) (buildId : Option (List Nat)) : LibInfo :=
   { name := basename path, debugName := basename path, path := path, debugPath := path,
     debugId := debugId, codeId := buildId.map fun b => (CodeId.elf b).toStr, arch := none }
+
+/-! ## the converter: identity of one mapping, with the build id the recording carries
+
+`add_module_to_process` (converter.rs:1308-1570) for an ELF mapping outside the simpleperf / vdso / PE / jitted-`.so`
+special cases. `recId` is the build id the recording has for the mapping: from the MMAP2 record itself
+(`Mmap2FileId::BuildId`, converter.rs:775-776) or from the `HEADER_BUILD_ID` section entry of the same path
+(:777-785). -/
+
+/-- what `open_file_with_fallback` + `object::File::parse` found for the mapped path (converter.rs:1337, 1425):
+nothing, or a little-endian ELF file with its `.note.gnu.build-id` (if any) and the XOR hash of its first text
+page -/
+inductive MappedFile
+  | absent
+  | elf (buildId : Option (List Nat)) (textHash : List Nat)
+deriving Repr, DecidableEq
+
+/-- `debug_id_for_object` (samply-symbols debugid_util.rs:69-100) for a little-endian ELF file: from the build
+id, else from the hash of the first page of `.text` -/
+def fileDebugId (buildId : Option (List Nat)) (textHash : List Nat) : DebugId :=
+  match buildId with
+  | some b => DebugId.fromIdentifierLE b
+  | none => DebugId.fromIdentifierLE textHash
+
+def elfCodeText (b : List Nat) : Str := (CodeId.elf b).toStr
+
+/-- `code_id_matches` (converter.rs:1572-1595) applied as at :1438-1442: with a build id in the recording the
+file must have a note and it must be *equal* (all bytes, `ElfBuildId: PartialEq` on the `Vec<u8>`) -/
+def codeIdMatches (fileId : Option (List Nat)) (expected : List Nat) : Bool :=
+  match fileId with
+  | some f => f == expected
+  | none => false
+
+/-- The library info the converter adds to the profile for one mapping, `none` = the mapping is dropped
+(`return` at converter.rs:1441).
+* case 2 (file opened at `path`, :1416-1491): identity *of the file* — `library_info_with_object` with the
+  file's own code id and `debug_id_for_object`; refused when the recording names another build id;
+* case 4 (no file, :1538-1569): identity *of the recording* — `DebugId::from_identifier(id, true)` and the
+  build id text, or the nil debug id and no code id without a build id. -/
+def convertMapping (path : Str) (file : MappedFile) (recId : Option (List Nat)) : Option LibInfo :=
+  match file with
+  | .elf fileId textHash =>
+    if (match recId with | some e => !codeIdMatches fileId e | none => false) then none
+    else some { name := basename path, debugName := basename path, path := path, debugPath := path,
+                debugId := fileDebugId fileId textHash, codeId := fileId.map elfCodeText, arch := none }
+  | .absent =>
+    some { name := basename path, debugName := basename path, path := path, debugPath := path,
+           debugId := (match recId with | some b => DebugId.fromIdentifierLE b | none => DebugId.nil),
+           codeId := recId.map elfCodeText, arch := none }
+
+/-! ## key names as text
+
+The writer spells the keys as string literals (library_info.rs:48-54); the reader derives them from its field
+identifiers through `#[serde(rename_all = "camelCase")]` (profile_json_preparse.rs:32-42). Both spellings are
+modelled separately so that their agreement is a theorem (`C19_keys_agree`) and the round trip can be stated
+for documents whose keys are text (`C19_roundtrip_text`). -/
+
+/-- the writer's literals -/
+def Key.writerText : Key → Str
+  | .name => [110, 97, 109, 101]                                      -- "name"
+  | .path => [112, 97, 116, 104]                                      -- "path"
+  | .debugName => [100, 101, 98, 117, 103, 78, 97, 109, 101]          -- "debugName"
+  | .debugPath => [100, 101, 98, 117, 103, 80, 97, 116, 104]          -- "debugPath"
+  | .breakpadId => [98, 114, 101, 97, 107, 112, 97, 100, 73, 100]     -- "breakpadId"
+  | .codeId => [99, 111, 100, 101, 73, 100]                           -- "codeId"
+  | .arch => [97, 114, 99, 104]                                       -- "arch"
+
+/-- the reader's Rust field identifiers (`ProfileJsonLib`) -/
+def Key.readerField : Key → Str
+  | .name => [110, 97, 109, 101]                                          -- name
+  | .path => [112, 97, 116, 104]                                          -- path
+  | .debugName => [100, 101, 98, 117, 103, 95, 110, 97, 109, 101]         -- debug_name
+  | .debugPath => [100, 101, 98, 117, 103, 95, 112, 97, 116, 104]         -- debug_path
+  | .breakpadId => [98, 114, 101, 97, 107, 112, 97, 100, 95, 105, 100]    -- breakpad_id
+  | .codeId => [99, 111, 100, 101, 95, 105, 100]                          -- code_id
+  | .arch => [97, 114, 99, 104]                                           -- arch
+
+def upperAscii (c : Nat) : Nat := if 97 ≤ c ∧ c ≤ 122 then c - 32 else c
+
+def lowerAscii (c : Nat) : Nat := if 65 ≤ c ∧ c ≤ 90 then c + 32 else c
+
+/-- serde_derive `RenameRule::PascalCase.apply_to_field` (serde_derive internals/case.rs): a `_` is dropped and
+sets `capitalize`; the next other character is upper-cased when `capitalize` is set (initially true) -/
+def pascalGo (capitalize : Bool) : Str → Str
+  | [] => []
+  | c :: rest =>
+    if c = 95 then pascalGo true rest
+    else (if capitalize then upperAscii c else c) :: pascalGo false rest
+
+/-- `RenameRule::CamelCase.apply_to_field`: PascalCase with the first character lower-cased again -/
+def camelCase (s : Str) : Str :=
+  match pascalGo true s with
+  | [] => []
+  | c :: rest => lowerAscii c :: rest
+
+def Key.all : List Key := [.name, .path, .debugName, .debugPath, .breakpadId, .codeId, .arch]
+
+/-- the reader's matching of an object key: exact comparison with the renamed field names; any other key is
+skipped (`ProfileJsonLib` has no `deny_unknown_fields`) -/
+def Key.ofText (s : Str) : Option Key := Key.all.find? fun k => camelCase k.readerField == s
+
+/-- a library object with textual keys -/
+abbrev TObj := List (Str × JVal)
+
+def resolveObj (o : TObj) : JObj := o.filterMap fun kv => (Key.ofText kv.1).map fun k => (k, kv.2)
+
+def serializeLibText (l : LibInfo) : TObj := (serializeLib l).map fun kv => (kv.1.writerText, kv.2)
+
+/-- documents whose library objects have textual keys -/
+inductive TDoc
+  | mk (libs : List TObj) (threads : List (List TObj)) (processes : List TDoc)
+
+mutual
+def TDoc.resolve : TDoc → PDoc
+  | .mk libs threads procs => .mk (libs.map resolveObj) (threads.map (·.map resolveObj)) (TDoc.resolveAll procs)
+def TDoc.resolveAll : List TDoc → List PDoc
+  | [] => []
+  | d :: ds => d.resolve :: TDoc.resolveAll ds
+end
+
+def serializeProfileText (p : Profile) : TDoc :=
+  .mk (p.usedLibs.map serializeLibText) (List.replicate p.threadCount []) []
+
+/-- the reader on a document with textual keys -/
+def preparseText (d : TDoc) : Option LibMap := preparse d.resolve
+
+/-! ## which candidate the symbolication uses
+
+`samply-symbols` tries the candidates in order and uses the first one that can be opened and whose debug id is
+the requested one (a candidate with another id is skipped: `SymbolsError::UnmatchedDebugId`). The file
+system is an oracle: the debug id of whatever symbol source sits at a candidate location, `none` = nothing
+there / unreadable. -/
+
+abbrev FsView := Cand → Option DebugId
+
+def firstAccepted (fs : FsView) (d : DebugId) (cands : List Cand) : Option Cand :=
+  cands.find? fun c => fs c == some d
 
 end LI
